@@ -317,6 +317,11 @@ func c02Pool() []c02PoolItem {
 		}
 		pool = append(pool, c02PoolItem{s, func() map[string]any { return c20Bind() }})
 	}
+	// dates: only "now" may read the clock; every other word or spelling is a function of its input, down to the nanosecond
+	for _, w := range []string{"today", "Today", "tomorrow", "yesterday", "midnight", "noon", "now ", " now", "NOW", "current", "1 day ago", "next week", "2006-01-02", "2006-01-02 15:04:05", "March 14, 2016", "0", "1152098955", ""} {
+		w := w
+		pool = append(pool, c02PoolItem{`{{ "` + w + `" | date: "%Y-%m-%d %H:%M:%S.%N %s" }}|{{ w | date: "%s.%N" }}|{{ w | date: "%c %L" }}`, func() map[string]any { return map[string]any{"w": w} }})
+	}
 	for _, s := range []string{"  \n\tleading whitespace {{ x }}", " {{ x }}", "\n{% raw %} r{% endraw %}", " ", "{{ pstr | prepend: '  ' }}", "{{ ptr }}{{ pstr }}", "{{ m }}{{ hash }}{{ pages }}", "{{ ptr.A }}{{ m.j }}", "{{ l | json }}{{ m | json }}{{ hash | inspect }}",
 		"{{ a | sort | join }}{{ pages | map: 'category' | compact | join }}", "{% for p in pages %}{{ p }}{% endfor %}", "{{ no | fail }}", "{{ 1 | divided_by: 0 }}\n", "a\n{% if %}"} {
 		pool = append(pool, c02PoolItem{s, corpusBind})
@@ -371,6 +376,29 @@ func c02EntryPoints(e *liquid.Engine, src string, b func() map[string]any) (name
 			return "", err
 		}
 		return w.String(), nil
+	})
+	// the source buffer belongs to the caller: a parsed template keeps nothing of it (it may be pooled, reused or
+	// overwritten right after the call) - same for the bytes handed to ParseTemplateAndCache
+	add("Render after the caller overwrote its source buffer", func() (string, liquid.SourceError) {
+		buf := []byte(src)
+		t, err := e.ParseTemplate(buf)
+		for i := range buf {
+			buf[i] = '#'
+		}
+		if err != nil {
+			return "", err
+		}
+		out, err := t.Render(b())
+		if err != nil {
+			return "", err
+		}
+		buf2 := append(buf[:0], []byte("{{ 'ANOTHER' }} template in the same buffer")...)
+		t2, _ := e.ParseTemplateLocation(buf2, "other.html", 3)
+		out2, err := t.Render(b())
+		if t2 == nil || err != nil || string(out2) != string(out) {
+			return "RE-RENDER AFTER BUFFER REUSE DIFFERS: " + string(out2), nil
+		}
+		return string(out), nil
 	})
 	// one parsed template rendered three times, shared bindings
 	add("same template x3", func() (string, liquid.SourceError) {
